@@ -2,6 +2,7 @@ SPECIFICATION PSpec
 CONSTANTS
   MaxN = 5
   MaxDepth = 3
+  Gap = 64
 INVARIANT PValid
 INVARIANT Monotone
 PROPERTY KeepsLabels
